@@ -23,28 +23,29 @@ RN_ASSUMPTION = ("decimal<->binary64: a float lexeme's value is taken from a hin
 
 PLANS = {
     "C01": {
-        "drive": [{"kind": "codec", "count": {"quick": 1500, "thorough": 30000}}],
+        "drive": [{"kind": "codec", "count": {"quick": 4500, "thorough": 60000}}],
         "gen": [gen("codec", "codec", ["roundtrip", "to_vec"]),
                 gen("num", "num", ["roundtrip"])],
         "bounds": "all documents of depth<=1 width<=W over 8 atoms, depth 2 width 2 over 8 representative containers, 28 wide atoms; W=2 quick, 3 thorough",
     },
     "C05": {
         "must_see": ["get_by_index:bytes", "get_by_index:none", "get_by_name:bytes", "get_by_name:none", "get_by_keypath:bytes", "get_by_keypath:none", "object_keys:bytes", "object_keys:none", "type_of:name"],
-        "drive": [{"kind": "acc", "count": {"quick": 1500, "thorough": 30000}}],
+        "drive": [{"kind": "acc", "count": {"quick": 4500, "thorough": 60000}}],
         "gen": [gen("acc", "acc", ACC_OPS)],
         "bounds": "every document of the bounded universe x every index -1..len+1, every present key/case variant/prefix/extension, every key path to depth+1",
     },
     "C06": {
         "must_see": ["delete_by_index:bytes", "delete_by_index:err", "object_insert:err", "object_insert:bytes", "delete_by_keypath:err", "delete_by_keypath:bytes", "object_delete:err"],
-        "drive": [{"kind": "edit", "count": {"quick": 1500, "thorough": 30000}}, {"kind": "pairs:concat", "count": {"quick": 500, "thorough": 8000}}],
+        "drive": [{"kind": "edit", "count": {"quick": 4500, "thorough": 60000}}, {"kind": "pairs:concat", "count": {"quick": 1500, "thorough": 16000}}, {"kind": "pairs_repr:concat", "count": {"quick": 1200, "thorough": 12000}}],
         "gen": [gen("edit", "edit", EDIT_OPS, wq=1, wt=2),
                 gen("concat", "pairs", ["concat"]),
+                gen("concat11", "pairs11", ["concat"], rp="{0, 2}"),
                 gen("build", "build", ["build_array", "build_object"])],
         "bounds": "bounded universe x all positions -len-2..len+2, all key subsets <=3, all key paths to depth+1; builders: all lists <=3 with keys in every order and duplicates",
     },
     "C02": {
         "must_see": ["parse_value:doc", "parse_value:err"],
-        "drive": [{"kind": "text", "count": {"quick": 1500, "thorough": 30000}}],
+        "drive": [{"kind": "text", "count": {"quick": 4500, "thorough": 60000}}],
         "gen": [
             {"name": "corrupt", "module": "GenText", "constants": {"Family": '"corrupt"', "MaxLen": "0"}},
             {"name": "fixed", "module": "GenText", "constants": {"Family": '"fixed"', "MaxLen": "0"}},
@@ -55,12 +56,12 @@ PLANS = {
         "bounds": "every deletion/replacement/insertion of one of 21 tokens at every position and every byte-prefix of 9 well-formed documents; all strings of <=L characters over the number alphabet {-,0,1,9,.,e,E,+} (bare and in an array) and over a 15-character string alphabet (quotes, backslash, u, braces, hex, control, multi-byte); 10 escape units around the surrogate ranges alone/paired/mis-paired in both bracket forms; integer/float classification at 2^63, 2^64 and the ends of the double range; token soups of <=L tokens over 10 tokens",
     },
     "C03": {
-        "drive": [{"kind": "render", "count": {"quick": 800, "thorough": 15000}}],
+        "drive": [{"kind": "render", "count": {"quick": 2400, "thorough": 30000}}],
         "gen": [gen("render", "render", ["render"])],
         "bounds": "strings of every code-point class (each control character 0x00-0x1F alone and embedded, DEL, quote, backslash, slash, U+2028/9, astral, replacement char) as values and keys down to three levels; every finite number of the 80-number boundary set; nested empty containers",
     },
     "C04": {
-        "drive": [{"kind": "pairs:compare", "count": {"quick": 1500, "thorough": 30000}}, {"kind": "pairs_repr:compare", "count": {"quick": 400, "thorough": 6000}}],
+        "drive": [{"kind": "pairs:compare", "count": {"quick": 4500, "thorough": 60000}}, {"kind": "pairs_repr:compare", "count": {"quick": 1200, "thorough": 12000}}],
         "gen": [{"name": "laws", "module": "Laws", "constants": {"Family": '"docs"', "Stride": "1"}, "invariants": ["LawInv"], "tiers": ("thorough",), "timeout": 3000},
                 gen("cmp", "pairs", ["compare"]), gen("cmp2", "pairs2", ["compare"])],
         "bounds": "all ordered pairs of the 70-document pair universe (number encodings of equal value, 2^53 neighbours, prefixes, length-only and deep differences)",
@@ -113,7 +114,7 @@ PLANS = {
     },
     "C10": {
         "must_see": ["decode:doc", "decode:err"],
-        "drive": [{"kind": "decode", "count": {"quick": 2000, "thorough": 40000}}],
+        "drive": [{"kind": "decode", "count": {"quick": 6000, "thorough": 80000}}],
         "gen": [
             {"name": "fault", "module": "GenFault", "constants": {"Family": '"fault"', "Double": "FALSE"}},
             {"name": "texts", "module": "GenFault", "constants": {"Family": '"texts"', "Double": "FALSE"}},
@@ -123,7 +124,7 @@ PLANS = {
         "assumptions": ["root header counts >= 2^24 are excluded: the decoder's pre-allocation would then depend on the host's overcommit policy"],
     },
     "C11": {
-        "drive": [{"kind": "repr", "count": {"quick": 1200, "thorough": 20000}}, {"kind": "serde_repr", "count": {"quick": 500, "thorough": 8000}}, {"kind": "pairs_repr", "count": {"quick": 800, "thorough": 15000}}],
+        "drive": [{"kind": "repr", "count": {"quick": 3600, "thorough": 40000}}, {"kind": "serde_repr", "count": {"quick": 1500, "thorough": 16000}}, {"kind": "pairs_repr", "count": {"quick": 2400, "thorough": 30000}}],
         "gen": [gen("acc11", "acc11", ACC_OPS + ["to_string", "to_pretty_string", "lazy", "comparable_all"], rp="{1, 2, 3}"),
                 gen("edit11", "edit11", EDIT_OPS + ["array_distinct"], rp="{0, 1, 3}"),
                 gen("pairs11", "pairs11", ["compare", "contains", "concat", "array_intersection", "array_except", "array_overlap"], rp="{0, 2, 3}")],
@@ -131,25 +132,28 @@ PLANS = {
         "assumptions": [RN_ASSUMPTION],
     },
     "C12": {
-        "drive": [{"kind": "pairs:contains", "count": {"quick": 1500, "thorough": 30000}}],
+        "drive": [{"kind": "pairs:contains", "count": {"quick": 4500, "thorough": 60000}}, {"kind": "pairs_repr:contains", "count": {"quick": 1800, "thorough": 20000}}],
         "gen": [{"name": "laws", "module": "Laws", "constants": {"Family": '"docs"', "Stride": "1"}, "invariants": ["LawInv"], "tiers": ("thorough",), "timeout": 3000},
-                gen("contains", "pairs", ["contains"]), gen("contains2", "pairs2", ["contains"])],
+                gen("contains", "pairs", ["contains"]), gen("contains2", "pairs2", ["contains"]),
+                gen("contains11", "pairs11", ["contains"], rp="{0, 2}")],
         "bounds": "all ordered pairs of the pair universe",
     },
     "C13": {
-        "drive": [{"kind": "pairs:array_intersection", "count": {"quick": 600, "thorough": 10000}}, {"kind": "pairs:array_except", "count": {"quick": 600, "thorough": 10000}}, {"kind": "pairs:array_overlap", "count": {"quick": 600, "thorough": 10000}}],
+        "drive": [{"kind": "pairs:array_intersection", "count": {"quick": 1800, "thorough": 20000}}, {"kind": "pairs:array_except", "count": {"quick": 1800, "thorough": 20000}}, {"kind": "pairs:array_overlap", "count": {"quick": 1800, "thorough": 20000}}, {"kind": "pairs_repr:array_intersection", "count": {"quick": 900, "thorough": 10000}}],
         "gen": [gen("sets", "pairs", ["array_intersection", "array_except", "array_overlap"]),
                 gen("sets2", "pairs2", ["array_intersection", "array_except", "array_overlap"], tiers=("thorough",)),
-                gen("distinct", "edit", ["array_distinct"])],
+                gen("distinct", "edit", ["array_distinct"]),
+                gen("sets11", "pairs11", ["array_intersection", "array_except", "array_overlap"], rp="{0, 2}"),
+                gen("distinct11", "edit11", ["array_distinct"], rp="{0, 1, 3}")],
         "bounds": "all ordered pairs of the pair universe; distinct over the bounded universe",
     },
     "C19": {
-        "drive": [{"kind": "serde", "count": {"quick": 800, "thorough": 15000}}],
+        "drive": [{"kind": "serde", "count": {"quick": 2400, "thorough": 30000}}],
         "gen": [gen("serde", "render", ["serde"])],
         "bounds": "the C03 universe: strings of every code-point class as values and keys, every finite number of the boundary set (u64/i64 extremes), nested empty containers",
     },
     "C17": {
-        "drive": [{"kind": "edit", "count": {"quick": 800, "thorough": 15000}}, {"kind": "pairs:concat", "count": {"quick": 300, "thorough": 5000}}],
+        "drive": [{"kind": "edit", "count": {"quick": 2400, "thorough": 30000}}, {"kind": "pairs:concat", "count": {"quick": 900, "thorough": 10000}}],
         "gen": [gen("edit11", "edit11", EDIT_OPS + ["array_distinct"], tiers=("quick",)),
                 gen("edit", "edit", EDIT_OPS + ["array_distinct"], wq=1, wt=2, tiers=("thorough",)),
                 gen("pairs", "pairs11", ["concat", "array_intersection", "array_except"], tiers=("quick",)),
@@ -160,13 +164,13 @@ PLANS = {
         "bounds": "every buffer-writing function on the bounded universes, each call made twice: into an empty buffer and into a buffer that already holds bytes (and, for path selection, earlier offsets); documented error cases included",
     },
     "C14": {
-        "drive": [{"kind": "pairs:comparable2", "count": {"quick": 1500, "thorough": 30000}}],
+        "drive": [{"kind": "pairs:comparable2", "count": {"quick": 4500, "thorough": 60000}}],
         "gen": [gen("keys", "pairs", ["comparable2"]), gen("keys2", "pairs2", ["comparable2"])],
         "bounds": "all ordered pairs of the 70-document pair universe and of the 92-document structured universe",
     },
     "C18": {
         "must_see": ["num_decode:num", "num_decode:err", "num_cmp:numcmp", "num:numinfo"],
-        "drive": [{"kind": "num", "count": {"quick": 2000, "thorough": 40000}}],
+        "drive": [{"kind": "num", "count": {"quick": 6000, "thorough": 80000}}],
         "gen": [{"name": "laws", "module": "Laws", "constants": {"Family": '"num"', "Stride": "1"}, "invariants": ["LawInv"]},
                 gen("num", "num", ["num", "num_decode", "casts"]),
                 gen("numpairs", "numpairs", ["num_cmp"])],
